@@ -3369,7 +3369,12 @@ impl Connection {
             );
             NewConnectionId {
                 sequence: issued.sequence,
-                retire_prior_to: self.local_cid_state.retire_prior_to(),
+                // A frame queued (or retransmitted) before `retire_prior_to` advanced past its
+                // sequence number must still be well-formed: Retire Prior To <= Sequence Number.
+                retire_prior_to: self
+                    .local_cid_state
+                    .retire_prior_to()
+                    .min(issued.sequence),
                 id: issued.id,
                 reset_token: issued.reset_token,
             }
